@@ -249,16 +249,23 @@ class Sc(object):
 
     def canon(s):
         """drop an imaginary part that is the zero polynomial (exact: equal for all values of the symbols)"""
-        if isinstance(s.im, z3.ExprRef):
-            t = z3.simplify(s.im, som=True)
-            if z3.is_rational_value(t) and t.numerator_as_long() == 0:
-                return Sc(s.re)
-            if not state.S.trans and not z3.is_rational_value(t):
-                sol = z3.Solver()
-                sol.set('timeout', 3000)
-                sol.add(t != 0)
-                if str(sol.check()) == 'unsat':
-                    return Sc(s.re)
+        if not isinstance(s.im, z3.ExprRef):
+            return s
+        t = s.im
+        # cheap refutation first: a polynomial that is non-zero at a pseudo-random rational point is not the zero polynomial
+        if state.S.trans or _has_division(t):
+            return s
+        consts = _consts_of(t)
+        for salt in (1, 2):
+            sub = [(c, z3.Q(1 + (hash((c.decl().name(), salt)) % 23), 3 + (hash((salt, c.decl().name())) % 7))) for c in consts]
+            v = z3.simplify(z3.substitute(t, *sub)) if sub else z3.simplify(t)
+            if not (z3.is_rational_value(v) and v.numerator_as_long() == 0):
+                return s
+        sol = z3.Solver()
+        sol.set('timeout', 5000)
+        sol.add(t != 0)
+        if str(sol.check()) == 'unsat':
+            return Sc(s.re)
         return s
 
     @staticmethod
@@ -495,6 +502,36 @@ def _ev_exact(c, model):
 
 def _ev(c, model):
     return float(_ev_exact(c, model))
+
+
+def _consts_of(t):
+    seen, out, stack = set(), [], [t]
+    while stack:
+        u = stack.pop()
+        i = u.get_id()
+        if i in seen:
+            continue
+        seen.add(i)
+        if z3.is_const(u):
+            if u.decl().kind() == z3.Z3_OP_UNINTERPRETED:
+                out.append(u)
+        else:
+            stack.extend(u.children())
+    return out
+
+
+def _has_division(t):
+    seen, stack = set(), [t]
+    while stack:
+        u = stack.pop()
+        i = u.get_id()
+        if i in seen:
+            continue
+        seen.add(i)
+        if z3.is_app(u) and u.decl().kind() == z3.Z3_OP_DIV:
+            return True
+        stack.extend(u.children())
+    return False
 
 
 def sym(name, cplx=False):
